@@ -265,7 +265,22 @@ def rule_scope(ctx, rep):
         for fl in a["variants"][0]["fields"]:
             ty = fl["ty"]
             is_table = bool(re.search(r"HashMap|HashSet|BTreeMap|BTreeSet|SymbolTable|LinkedList|(?<!diagnostic::)Vec<(?!ironplc_dsl::diagnostic)", ty)) and "Diagnostic" not in ty
-            is_ctx = ty.startswith("core::option::Option<")
+            # a "context" field: an Option, or a workspace enum whose initial value (at construction) is a fieldless variant
+            neutral = None
+            if ty.startswith("core::option::Option<"):
+                neutral = "None"
+            elif ctx.facts.adts.get(ty, {}).get("kind") == "enum":
+                for b0 in ctx.prog.bodies.values():
+                    if b0.f["crate"] != "ironplc_analyzer":
+                        continue
+                    for _, _, s0 in b0.all_stmts():
+                        if s0[0] == "=" and s0[2][0] == "agg" and s0[2][1].get("adt") == aid and fl["name"] in s0[2][1].get("fields", []):
+                            o0 = s0[2][2][s0[2][1]["fields"].index(fl["name"])]
+                            p0 = op_place(o0)
+                            d0 = b0.single_def(p0[0]) if p0 and not p0[1] else None
+                            if d0 and d0[0] == "stmt" and d0[3][0] == "agg" and d0[3][1].get("adt") == ty and not d0[3][2]:
+                                neutral = d0[3][1]["variant"]
+            is_ctx = neutral is not None
             if not (is_table or is_ctx) or ty.startswith("&'a std") and "mut" not in ty:
                 continue
             events = {}   # method -> set(kinds)
@@ -316,7 +331,7 @@ def rule_scope(ctx, rep):
                         continue
                     if not m.startswith(("visit_", "fold_")):
                         continue
-                    verdict = ctx_reset_on_all_paths(b, aid, fl["name"])
+                    verdict = ctx_reset_on_all_paths(b, aid, fl["name"], ty, neutral)
                     inst2 = "%s|%s" % (inst, m)
                     w2 = "%s:%d" % (b.f["file"], b.f["line"])
                     if verdict is True:
@@ -327,8 +342,12 @@ def rule_scope(ctx, rep):
                         r.finding(inst2, w2, "the context `%s` is set in %s and not reset to None on every path to its return: it leaks into the next node" % (fl["name"], m))
 
 
-def ctx_reset_on_all_paths(b, aid, field):
-    """True: set Some and always None at return; None: never set to Some; False: may return with Some"""
+def ctx_reset_on_all_paths(b, aid, field, ty, neutral):
+    """True: set to a non-neutral value and always neutral again at return; None: only ever assigned the neutral value;
+    False: may return with a non-neutral value"""
+    opt = ty.startswith("core::option::Option<")
+    want_adt = "core::option::Option" if opt else ty
+
     def kind_of(s):
         if s[0] != "=":
             return None
@@ -336,29 +355,37 @@ def ctx_reset_on_all_paths(b, aid, field):
         if not (fs and fs[-1][3] == aid and fs[-1][2] == field and len([x for x in s[1][1] if isinstance(x, list)]) == len(fs)):
             return None
         rv = s[2]
-        if rv[0] == "agg" and rv[1].get("adt") == "core::option::Option":
+        if rv[0] == "agg" and rv[1].get("adt") == want_adt:
             return rv[1]["variant"]
         if rv[0] == "use":
             p = op_place(rv[1])
             d = b.single_def(p[0]) if p and not p[1] else None
-            if d and d[0] == "stmt" and d[3][0] == "agg" and d[3][1].get("adt") == "core::option::Option":
+            if d and d[0] == "stmt" and d[3][0] == "agg" and d[3][1].get("adt") == want_adt:
                 return d[3][1]["variant"]
-        return "Some"   # unknown value: assume set
+        return "(set)"   # unknown value: assume non-neutral
 
     def step(st, bb):
         for s in b.stmts(bb):
             k = kind_of(s)
             if k:
                 st = k
+        # a call result stored straight into the field
+        c = b.call_at(bb)
+        if c is not None:
+            fs = [x for x in c.dest[1] if isinstance(x, list) and x[0] == "f"]
+            if fs and fs[-1][3] == aid and fs[-1][2] == field:
+                st = "(set)"
         return st
     rets = explore(b, "entry", step)
     finals = set()
     for sts in rets.values():
         finals |= sts
-    anysome = any(kind_of(s) == "Some" for _, _, s in b.all_stmts())
-    if not anysome:
+    sets = [kind_of(s) for _, _, s in b.all_stmts()]
+    calls_set = any(fs and fs[-1][3] == aid and fs[-1][2] == field for c in b.calls() for fs in [[x for x in c.dest[1] if isinstance(x, list) and x[0] == "f"]])
+    anyset = calls_set or any(k not in (None, neutral) for k in sets)
+    if not anyset:
         return None
-    return "Some" not in finals
+    return all(f in ("entry", neutral) for f in finals)
 
 
 def run(ctx, rep):
